@@ -243,6 +243,7 @@ class StreamRun:
         self.snapshots = set()
         self.violation = None
         self.max_manage_tasks = 0
+        self.forced_error_responses = {}  # id(response) -> job name, for server-sent non-retryable errors
         self.stop_raced = set()  # jobs whose execution coroutine had not started when stop() was called
         self.program = quantum.QuantumProgram(name=PROGRAM)
 
@@ -295,7 +296,13 @@ class StreamRun:
         elif kind == "proc_orphan":
             self.srv.process(None, arg, choose=self.ch.choose, orphan=True)
         elif kind == "deliver":
-            st.q.put_nowait(st.outbox.pop(arg))
+            resp = st.outbox.pop(arg)
+            jn = self.forced_error_responses.pop(id(resp), None)
+            if jn is not None:
+                for k in self.futs:
+                    if job_name(k) == jn and self.expected[k] == "result":
+                        self.expected[k] = "streamerror" if quiescent else "streamerror_or_result"
+            st.q.put_nowait(resp)
         elif kind == "break":
             self.budget["breaks"] -= 1
             exc = RETRYABLE[self.sc.retry_exc % 3]("stream broke")
@@ -320,9 +327,8 @@ class StreamRun:
             r = st.inbox[arg]
             jn = _req_job(r)
             self.srv.process(st, arg, forced_error=Code.INVALID_ARGUMENT)
-            for k in self.futs:
-                if job_name(k) == jn and self.expected[k] == "result":
-                    self.expected[k] = "streamerror"
+            # the error only reaches the client if this response is delivered (a stream break may lose it)
+            self.forced_error_responses[id(st.outbox[-1])] = jn
         elif kind == "cancel":
             self.budget["cancel"] -= 1
             self.futs[arg].cancel()
@@ -479,13 +485,18 @@ class StreamRun:
             elif exp == "streamerror":
                 if got[0] != "streamerror":
                     return f"job {k}: non-retryable StreamError must surface, got {got}"
+            elif exp == "streamerror_or_result":
+                if not (got[0] == "streamerror" or ok_result):
+                    return f"job {k}: expected StreamError or own result, got {got}"
             elif exp == "fatal_or_result":
                 if not (got[0] == "fatal" or ok_result):
                     return f"job {k}: expected fatal error or own result, got {got}"
             elif exp.startswith("cancelled_or_"):
-                alt = exp[len("cancelled_or_"):]
-                if not (got[0] == "cancelled" or got[0] == alt or (alt == "result" and ok_result) or (alt == "fatal" and ok_result)):
-                    return f"job {k}: expected cancelled or {alt}, got {got}"
+                alts = set(exp.split("_or_"))
+                if "fatal" in alts:
+                    alts.add("result")  # a deviation-injected fatal break may miss a job that had nothing in flight
+                if not (got[0] in (alts - {"result"}) or ("result" in alts and ok_result)):
+                    return f"job {k}: expected one of {sorted(alts)}, got {got}"
             # remote cancellation
             ncancel = self.srv.cancels.count(jn)
             if got[0] == "cancelled":
